@@ -32,9 +32,9 @@ func jobsFor(prop, tier string) []Job {
 				Outside: []string{"longer histories; values longer than one byte (C11 covers sizes); I/O errors; keys outside the 5-key adversarial universe"}}
 		}
 		js = []Job{
-			mk("c01-n3-drain", params("N", 3, "KEYS", 2, "DRAIN", 1, "L0MAX", 2), false, 0),
-			mk("c01-n2-drain-ops2-k3", params("N", 2, "KEYS", 3, "DRAIN", 1, "OPS2", 1, "KINDS", 3), false, 0),
-			mk("c01-n3-ops2-k3-l0t2", params("N", 3, "KEYS", 3, "DRAIN", 1, "OPS2", 1, "KINDS", 2, "L0MIN", 2, "L0MAX", 2, "IBMAX", 0, "BLKMAX", 0, "K0", 2), false, 0),
+			mk("c01-n3-drain", params("N", 3, "KEYS", 2, "DRAIN", 1, "KINDS", 3), false, 0),
+			mk("c01-n2-drain-ops2-k3", params("N", 2, "KEYS", 3, "DRAIN", 1, "OPS2", 1, "KINDS", 2, "IBMAX", 0, "BLKMAX", 0), false, 0),
+			mk("c01-n3-ops2-k3-l0t2", params("N", 3, "KEYS", 3, "DRAIN", 1, "OPS2", 1, "KINDS", 1, "L0MIN", 2, "L0MAX", 2, "IBMAX", 0, "BLKMAX", 0, "K0", 2), false, 0),
 			mk("c01-n3-lazy", params("N", 3, "KEYS", 2, "DRAIN", 0, "K0", 1, "IBMAX", 2), false, 0),
 			mk("c01-n3-eager", params("N", 3, "KEYS", 2, "DRAIN", 0, "K0", 3), true, 0),
 		}
@@ -113,7 +113,19 @@ func jobsFor(prop, tier string) []Job {
 			// points explored inside Close
 			j := mk("crash-w4-close-with-pending-flushes", params("W", 4, "DRAIN", 0, "IB", 4, "FINALDRAIN", 0, "STALL", 1, "ZONE", 1, "POSTN", 1), 1, tears, false, 1)
 			j.ZoneOnly = true
-			js = append(js, j)
+			if !tears || thorough {
+				js = append(js, j)
+			}
+		}
+		if tears && !thorough {
+			// C14 quick: the clock variant is C03's; keep the tear space inside the time budget
+			var keep []Job
+			for _, j := range js {
+				if j.Name != "crash-w2-samesecond" {
+					keep = append(keep, j)
+				}
+			}
+			js = keep
 		}
 	case "C05", "C06", "C07", "C08":
 		mk := func(name string, p map[string]int) Job {
@@ -126,12 +138,13 @@ func jobsFor(prop, tier string) []Job {
 			mk("txn-2-core", params("NT", 2, "LIB0", 0, "LIB", 5, "K0", 0, "IBMAX", 0, "BLKMAX", 0)),
 			mk("txn-2-rw-del", params("NT", 2, "LIB0", 3, "LIB", 4, "K0", 2, "IBMAX", 0, "BLKMAX", 0, "REOPEN", 0)),
 			mk("txn-1-misuse", params("NT", 1, "LIB0", 7, "LIB", 5, "K0", 3, "UPDATEERR", 1)),
-			mk("txn-2-updateerr", params("NT", 2, "LIB0", 2, "LIB", 2, "K0", 1, "UPDATEERR", 1, "IBMAX", 0, "BLKMAX", 0)),
+			mk("txn-1-updateerr", params("NT", 1, "LIB0", 2, "LIB", 3, "K0", 1, "UPDATEERR", 1, "IBMAX", 0, "BLKMAX", 0)),
 			mk("txn-2-nodrain-queue", params("NT", 2, "LIB0", 3, "LIB", 2, "K0", 3, "DRAIN", 0, "IBMIN", 2, "IBMAX", 2, "BLKMAX", 0, "REOPEN", 0)),
-			mk("txn-2-extracommit", params("NT", 2, "LIB0", 3, "LIB", 2, "K0", 0, "EXTRA", 1, "IBMAX", 0, "BLKMAX", 0, "REOPEN", 0)),
+			mk("txn-2-extracommit", params("NT", 2, "LIB0", 3, "LIB", 2, "K0", 0, "EXTRA", 1, "MEMFIX", 4096, "REOPEN", 0)),
 		}
 		if thorough {
 			js = append(js, mk("txn-3-short", params("NT", 3, "LIB0", 0, "LIB", 5, "K0", 1, "BLKMAX", 0, "IBMAX", 0, "REOPEN", 0)),
+				mk("txn-2-updateerr", params("NT", 2, "LIB0", 2, "LIB", 2, "K0", 1, "UPDATEERR", 1, "IBMAX", 0, "BLKMAX", 0)),
 				mk("txn-2-all", params("NT", 2, "LIB", 12, "K0", 3, "IBMAX", 0, "BLKMAX", 0)),
 				mk("txn-2-core-nodrain", params("NT", 2, "LIB0", 0, "LIB", 7, "K0", 0, "DRAIN", 0)))
 		}
